@@ -501,10 +501,32 @@ def _fmt_lead_expr(args_txt):
     return name
 
 
+def _fmt_code_expr(args_txt):
+    """the error code a message carries right after its leading offset (`{..:#X}: [<code>] ..`): a literal `E<digits>` becomes
+    `code_lit(<digits>)`, a `{name}` directive becomes the expression it renders (named argument or captured identifier);
+    None if the literal does not have that form"""
+    parts = _split_top(args_txt)
+    if not parts:
+        return None
+    m = re.match(r'^"(?:\\\n\s*)?\{[A-Za-z_0-9]*:#[Xx]\}:\s*\[(?:\{([A-Za-z_][A-Za-z_0-9]*)\}|E(\d+))\]', parts[0], re.S)
+    if not m:
+        return None
+    if m.group(2):
+        return f"code_lit({m.group(2)})"
+    name = m.group(1)
+    for a in parts[1:]:
+        mm = re.match(r"^" + re.escape(name) + r"\s*=(?!=)\s*(.*)$", a, re.S)
+        if mm:
+            return mm.group(1).strip()
+    return name
+
+
 def msg_rule(txt, shaped=False):
     """message-text expressions are replaced by the opaque msg(): `format!(..)` and `"literal".into()`.
     With `"msg_rule": "at"` the expression rendered by the leading `{..:#X}` directive is kept as well:
     `opaque_msg_at(flag, <expr>)`.
+    With `"msg_rule": "at_code"` the error code written right after that offset (`{..:#X}: [E701] ..` or `{..:#X}: [{err_code}] ..`)
+    is kept too: `opaque_msg_code(flag, <expr>, <code>)`, and error-code literals `"E<n>"` elsewhere in the text become `code_lit(<n>)`.
     With shaped=True (`"msg_rule": "shaped"`), `format!("<lit>", ..)` becomes `opaque_msg_shaped(true|false)`:
     the flag says whether the literal starts with an upper-case hexadecimal offset directive (see _fmt_shape);
     literal messages (`"..".into()`, `"..".to_string()`) become opaque_msg_shaped(false)."""
@@ -518,10 +540,19 @@ def msg_rule(txt, shaped=False):
         s = i + m.start()
         e = _match_paren(txt, i + m.end() - 1)
         out.append(txt[i:s])
-        if shaped in ("at", "at_bytes"):
+        if shaped in ("at", "at_bytes", "at_code"):
             a = txt[i + m.end():e - 1]
             lead = _fmt_lead_expr(a)
             flag = "true" if _fmt_shape(a) else "false"
+            code = _fmt_code_expr(a) if shaped == "at_code" else None
+            if code and lead:
+                # additionally keep the error code written right after the offset: `{..:#X}: [<code>]`
+                out.append(f"opaque_msg_code({flag}, {lead}, {code})")
+                i = e
+                m2 = re.match(r"\s*\.into\(\)", txt[i:])
+                if m2:
+                    i += m2.end()
+                continue
             if shaped == "at_bytes" and lead:
                 # additionally keep the positional arguments (in order) as an array: the bytes a message quotes
                 parts = _split_top(a)[1:]
@@ -538,6 +569,9 @@ def msg_rule(txt, shaped=False):
         if m2:
             i += m2.end()
     txt = "".join(out)
+    if shaped == "at_code":
+        # error-code literals outside the message text (`let err_code = if is_ib { "E72" } else { "E73" };`)
+        txt = re.sub(r'"E(\d+)"', r"code_lit(\1)", txt)
     lit = "opaque_msg_shaped(false)" if shaped else "opaque_msg()"
     txt = re.sub(r'"(?:[^"\\]|\\.)*"\s*\.into\(\)', lit, txt)
     if shaped:
@@ -703,7 +737,7 @@ def extract_item(e, vac=False):
         if e.get("row_rule"):
             item = row_rule(item)
         if e.get("msg_rule"):
-            item = msg_rule(item, {"shaped": True, "at": "at", "at_bytes": "at_bytes"}.get(e.get("msg_rule"), False))
+            item = msg_rule(item, {"shaped": True, "at": "at", "at_bytes": "at_bytes", "at_code": "at_code"}.get(e.get("msg_rule"), False))
         if vac:
             item = "assert(false); // @VACUITY " + e["key"] + "\n" + item
         return item
@@ -760,7 +794,7 @@ def extract_item(e, vac=False):
     if e.get("lit_rule"):
         item = lit_rule(item)
     if e.get("msg_rule"):
-        item = msg_rule(item, {"shaped": True, "at": "at", "at_bytes": "at_bytes"}.get(e.get("msg_rule"), False))
+        item = msg_rule(item, {"shaped": True, "at": "at", "at_bytes": "at_bytes", "at_code": "at_code"}.get(e.get("msg_rule"), False))
     if e.get("kind", "fn") == "fn":
         b = item.index("{")
         # find the body's brace: first '{' after the signature's closing paren / return type.
